@@ -397,11 +397,28 @@ func c16Scenario(name string, o c16Opts, kinds []string, bound int) schedx.Scena
 					}
 				default:
 					kind := k
-					if j := strings.Index(k, ":"); j >= 0 { // "fresh:same" shares the session of thread 0
+					if j := strings.IndexAny(k, ":@"); j >= 0 { // "fresh:same" / "logout@0" use the session of thread 0
 						kind = k[:j]
 					}
 					if strings.HasSuffix(k, ":same") && i > 0 && ths[0].Req != nil {
 						t.Req = ths[0].Req
+					} else if strings.HasSuffix(k, "@0") && i > 0 {
+						// a request of another kind on thread 0's session (no store preparation of its own)
+						k0 := kinds[0]
+						if j := strings.IndexAny(k0, ":@"); j >= 0 {
+							k0 = k0[:j]
+						}
+						sid := fmt.Sprintf("sess-%s-%d", k0, 0)
+						path := "/app"
+						switch strings.TrimSuffix(k, "@0") {
+						case "logout":
+							path = "/logout"
+						case "callback":
+							path = "/callback?code=code-" + sid + "&state=state-" + sid
+						}
+						t.Req = &envoy.CheckRequest{Attributes: &envoy.AttributeContext{Request: &envoy.AttributeContext_Request{
+							Http: &envoy.AttributeContext_HttpRequest{Id: "r", Method: "GET", Scheme: "https", Host: "app.test", Path: path,
+								Headers: map[string]string{":authority": "app.test", ":path": path, "cookie": "__Host-authservice-session-id-cookie=" + sid}}}}}
 					} else {
 						t.Req = w.prepare(kind, i)
 					}
@@ -468,6 +485,23 @@ func c16Scenarios(tier string) []schedx.Scenario {
 				c16Scenario("S2 discovery: 3 threads", disc, []string{"nocookie", "callback", "refresh"}, b),
 				c16Scenario("S4 CA file: callback||rotate||nocookie", c16Opts{CAFile: true}, []string{"callback", "rotate", "nocookie"}, b),
 			)
+		}
+		// the full matrix of request-kind pairs, on different sessions and on the same session (static configuration)
+		kinds := []string{"nocookie", "fresh", "refresh", "callback", "logout"}
+		have := map[string]bool{}
+		for _, sc := range scs {
+			have[sc.Name] = true
+		}
+		for i, a := range kinds {
+			for _, b := range kinds[i:] {
+				n1 := fmt.Sprintf("S1 static matrix: %s||%s", a, b)
+				if !have[n1] {
+					scs = append(scs, c16Scenario(n1, static, []string{a, b}, 1))
+				}
+				if a != "nocookie" && b != "nocookie" {
+					scs = append(scs, c16Scenario(fmt.Sprintf("S1 static matrix: %s||%s on the same session", a, b), static, []string{a, b + "@0"}, 1))
+				}
+			}
 		}
 		scs = append(scs,
 			c16Scenario("S6 redis: fresh||refresh", c16Opts{Redis: true}, []string{"fresh", "refresh"}, -2),
